@@ -37,13 +37,13 @@ class SourceModule(Object):
     @cached_property
     def scope(self):
         # type: () -> SourceScope
-        source = Source(open(self.filename).read(), self.filename)
         self._loading = True
         try:
+            source = Source(open(self.filename).read(), self.filename)
             scope = extract_scope(source, self.project)
-        except SyntaxError:
-            # a module that does not parse (a file saved in the middle of
-            # an edit) has no names
+        except (SyntaxError, UnicodeDecodeError):
+            # a module that does not parse or decode (a file saved in the
+            # middle of an edit) has no names
             scope = extract_scope(Source('', self.filename), self.project)
         finally:
             self._loading = False
